@@ -27,6 +27,7 @@ class Module:
     is_pkg: bool
     imports: dict[str, str] = field(default_factory=dict)  # local name -> qualified target
     digest: str = ""
+    module_imports: set = field(default_factory=set)
 
     def __repr__(self) -> str:
         return f"<module {self.name}>"
@@ -154,9 +155,11 @@ class Repo:
                     for a in st.names:
                         if a.asname:
                             m.imports[a.asname] = a.name
+                            m.module_imports.add(a.asname)
                         else:
                             top = a.name.split(".")[0]
                             m.imports[top] = top
+                            m.module_imports.add(top)
                 elif isinstance(st, ast.ImportFrom):
                     if st.level:
                         base_parts = pkg.split(".") if pkg else []
